@@ -87,6 +87,8 @@ var propFile = stdProps.path
 // the first `=` is exactly the key
 func refLookup(lines []string, key string) (string, bool) {
 	for _, l := range lines {
+		// a piece that ends in \r is a line of a file saved with CRLF line ends: its text is what stands before the \r\n
+		l = strings.TrimSuffix(l, "\r")
 		i := strings.IndexByte(l, '=')
 		if i < 0 {
 			continue
@@ -1101,6 +1103,13 @@ func (w *walker) walkPlugin(fpath string, iface reflect.Type, set func(any) any,
 		two := cloneMap(bp)
 		two["Type"] = bp["type"]
 		w.add(gcase{kind: "plugin-twotypes", path: fpath, at: "-", exp: "reject", cfg: set(two)})
+		// round 4: one too many is not only "exactly two": three spellings of the key, the extra ones naming other / no plugins
+		three := cloneMap(two)
+		three["TYPE"] = bp["type"]
+		w.add(gcase{kind: "plugin-threetypes", path: fpath, at: "-", exp: "reject", cfg: set(three)})
+		four := cloneMap(three)
+		four["tYpE"] = "no-such-plugin"
+		w.add(gcase{kind: "plugin-threetypes", path: fpath + "#4", at: "-", exp: "reject", cfg: set(four)})
 	}
 	switch iface.String() {
 	case sinkIface:
@@ -1263,6 +1272,10 @@ func allRoots() []string {
 	roots := []string{"cli", "synth", "probe"}
 	for _, iface := range regOrder {
 		for _, n := range altNames(iface) {
+			if iface == probeIface && (n == "pmut" || n == "pmutv") {
+				// the same config type as pptr / pstruct, which are walked exhaustively as roots of their own
+				continue
+			}
 			roots = append(roots, "alt|"+iface.String()+"|"+n)
 		}
 	}
@@ -1419,7 +1432,9 @@ func rawCases(r *rand.Rand, tier string) []gcase {
 	for _, f := range synthFields {
 		pool := poolFor(f.fk)
 		for _, raw := range pool {
-			if tier == "quick" && !rawEdge[raw] && r.Intn(100) >= 22 {
+			// round 4: the bool literals are few and every one of them is a class of its own (1 / t / T / TRUE / True …):
+			// always all of them
+			if tier == "quick" && !rawEdge[raw] && f.fk != "bool" && r.Intn(100) >= 22 {
 				continue
 			}
 			m := cloneMap(base)
@@ -1504,6 +1519,34 @@ func propCases(r *rand.Rand, tier string) []gcase {
 	add("ph-propx", []string{"k=v"}, "", note)
 	add("ph-propx", []string{"=v"}, "", note)
 	add("ph-propx", []string{}, "a", note)
+	// round 4: files saved with CRLF line ends (every piece between two \n ends in \r): the text of a line excludes its
+	// terminator, so a number stays a number; one \r only; a \r elsewhere is part of the text
+	add("ph-propx", []string{"MY_FIELD=data\r"}, "MY_FIELD", note)
+	add("ph-propx", []string{"# dos\r", "n=42\r", "m=7\r"}, "n", i64)
+	add("ph-propx", []string{"# dos\r", "n=42\r", "m=7"}, "m", i64)
+	add("ph-propx", []string{"timeout=3s\r", ""}, "timeout", pause)
+	add("ph-propx", []string{"k=v\r\r"}, "k", note)
+	add("ph-propx", []string{"k=\r"}, "k", note)
+	add("ph-propx", []string{"a\r=1", "a=2\r"}, "a", i64)
+	add("ph-propx", []string{"a\rb=1\r"}, "a\rb", i64)
+	add("ph-propx", []string{"n=4\r2\r"}, "n", note)
+	{
+		var crlf []string
+		for _, l := range stdProps.lines {
+			crlf = append(crlf, l+"\r")
+		}
+		for _, k := range sortedKeys(propTable) {
+			f := note
+			switch k {
+			case "int":
+				f = i64
+			case "dur":
+				f = pause
+			}
+			add("ph-propx", crlf, k, f)
+			add("ph-propx", crlf, k+"_", note)
+		}
+	}
 	for _, k := range sortedKeys(propTable) {
 		// the standard file: the decoy lines around every key
 		for _, key := range []string{k + "_max", "x" + k, strings.ToUpper(k), k + "_", k[:len(k)-1]} {
@@ -1517,7 +1560,11 @@ func propCases(r *rand.Rand, tier string) []gcase {
 	for i := 0; i < n; i++ {
 		var lines []string
 		for j, k := 0, r.Intn(6); j <= k; j++ {
-			lines = append(lines, randPropLine(r))
+			l := randPropLine(r)
+			if r.Intn(6) == 0 {
+				l += "\r"
+			}
+			lines = append(lines, l)
 		}
 		key := propKeyPool[r.Intn(len(propKeyPool))]
 		add("ph-propr", lines, key, note)
@@ -1614,5 +1661,6 @@ func genCases(r *rand.Rand, tier string) []string {
 		}
 	}
 	out = append(out, cliCases(r, tier)...)
+	out = append(out, docCases()...)
 	return out
 }
